@@ -114,73 +114,127 @@ pub fn replay(case: &Value) -> Vec<Violation> {
     }
 }
 
-pub fn run(ctx: &Ctx) -> Report {
-    quiet_panics();
-    let mut rep = Report::new("model_checking");
-    let thorough = ctx.tier.is_thorough();
+/// the phases: (flush_after, workers, depth); the flush hook is process wide, so each worker process runs one phase
+fn phases(thorough: bool) -> Vec<(Option<u32>, usize, usize)> {
     let d_main = if thorough { 5 } else { 4 };
     let d_other = if thorough { 4 } else { 3 };
+    vec![(None, 1, d_main), (Some(1), 1, d_other), (None, 2, d_other), (Some(2), 2, d_other)]
+}
+
+fn work_list(phase: usize, thorough: bool) -> (Vec<Vec<Op>>, Vec<Vec<Op>>, Vec<(usize, usize)>) {
+    let (_flush, _workers, depth) = phases(thorough)[phase];
     let pre = prefixes();
-    // phases: the flush hook is process wide, so configurations with different cuts run one after the other
-    let phases: Vec<(Option<u32>, usize, usize)> = vec![(None, 1, d_main), (Some(1), 1, d_other), (None, 2, d_other), (Some(2), 2, d_other)];
+    let hists = enumerate(depth, &ALPHABET);
+    let mut work: Vec<(usize, usize)> = vec![];
+    for pi in 0..pre.len() {
+        for hi in 0..hists.len() {
+            // non-initial start states: a quarter of the histories each in the quick tier
+            if pi > 0 && !thorough && hi % 4 != pi % 4 {
+                continue;
+            }
+            work.push((pi, hi));
+        }
+    }
+    (pre, hists, work)
+}
+
+/// worker process: vcheck worker C02 p<phase> start end step <tier>
+pub fn worker(family: &str, start: u64, end: u64, step: u64, arg: &str) {
+    quiet_panics();
+    crate::iso::worker_guard(8 << 30, 60_000);
+    let phase: usize = family.trim_start_matches('p').parse().unwrap_or(0);
+    let thorough = arg == "thorough";
+    let (flush, workers, _depth) = phases(thorough)[phase];
+    set_flush_after(flush);
+    let cfg = Config { workers, sort: None };
+    let (pre, hists, work) = work_list(phase, thorough);
+    let mut st = Stats::default();
+    let mut idx = start;
+    while idx < end.min(work.len() as u64) {
+        let (pi, hi) = work[idx as usize];
+        let h = &hists[hi];
+        crate::iso::set_current(idx);
+        st.eval();
+        let has_commit = h.iter().chain(pre[pi].iter()).any(|o| matches!(o, Op::Commit | Op::CommitPayload));
+        let has_del = h.iter().any(|o| matches!(o, Op::DelA | Op::DelB | Op::DelLastId | Op::DelQueryA | Op::Rollback | Op::RunBatch | Op::PrepAbort));
+        if has_commit && has_del {
+            st.count("nontrivial");
+        }
+        let r = catch_unwind(AssertUnwindSafe(|| run_history(&pre[pi], h, &cfg, &mut st)));
+        crate::iso::idle();
+        let v = match r {
+            Ok(None) => None,
+            Ok(Some(x)) => Some(x),
+            Err(e) => Some(("history_panic".to_string(), format!("{} [{}]", panic_message(e), last_panic()))),
+        };
+        if let Some((rule, what)) = v {
+            crate::iso::emit(&json!({"t":"V","rule":rule,"what":what,"idx":idx}).to_string());
+        }
+        idx += step;
+    }
+    crate::iso::emit(&json!({"t":"S","evals":st.evaluations,"counters":st.counters}).to_string());
+    crate::iso::emit("DONE");
+}
+
+pub fn run(ctx: &Ctx) -> Report {
+    let mut rep = Report::new("model_checking");
+    let thorough = ctx.tier.is_thorough();
     let mut total = Stats::default();
     let mut complete = true;
     let mut phase_info = vec![];
-    for (flush, workers, depth) in phases {
+    let mut nontrivial = 0u64;
+    for (pi, (flush, workers, depth)) in phases(thorough).into_iter().enumerate() {
+        let (pre, hists, work) = work_list(pi, thorough);
         if ctx.out_of_time() {
             complete = false;
+            phase_info.push(json!({"flush_after":flush,"workers":workers,"depth":depth,"histories":work.len(),"completed":0}));
             continue;
         }
-        set_flush_after(flush);
         let cfg = Config { workers, sort: None };
-        let hists = enumerate(depth, &ALPHABET);
-        let mut work: Vec<(usize, usize)> = vec![];
-        for pi in 0..pre.len() {
-            for hi in 0..hists.len() {
-                // non-initial start states: one depth less
-                if pi > 0 && hists[hi].len() > depth.saturating_sub(1) && !thorough && hi % 4 != pi % 4 {
-                    continue;
+        let o = crate::iso::run_isolated(ctx, "C02", &format!("p{pi}"), work.len() as u64, ctx.tier.name());
+        complete &= o.complete;
+        phase_info.push(json!({"flush_after":flush,"workers":workers,"depth":depth,"histories":work.len(),"completed":o.completed}));
+        total.errors.extend(o.machinery_errors);
+        for (kind, idx) in o.crashes {
+            let (p, h) = work[idx as usize];
+            total.violation(Violation::new(
+                &format!("history_{kind}"),
+                format!("workers {workers} flush_after {flush:?} prefix {:?} history {:?}: the worker process did not return ({kind})", pre[p], hists[h]),
+                json!({"prefix":pre[p],"history":hists[h],"config":cfg,"flush_after":flush}),
+            ));
+        }
+        for l in o.lines {
+            let Ok(v) = serde_json::from_str::<Value>(&l) else { continue };
+            if v["t"] == "V" {
+                let (p, h) = work[v["idx"].as_u64().unwrap_or(0) as usize];
+                total.violation(Violation::new(
+                    v["rule"].as_str().unwrap_or("?"),
+                    format!("workers {workers} flush_after {flush:?} prefix {:?} history {:?}: {}", pre[p], hists[h], v["what"].as_str().unwrap_or("")),
+                    json!({"prefix":pre[p],"history":hists[h],"config":cfg,"flush_after":flush}),
+                ));
+            } else if v["t"] == "S" {
+                total.evaluations += v["evals"].as_u64().unwrap_or(0);
+                if let Some(c) = v["counters"].as_object() {
+                    for (k, x) in c {
+                        total.count_n(k, x.as_u64().unwrap_or(0));
+                    }
                 }
-                work.push((pi, hi));
             }
         }
-        let (st, done) = par_for(ctx, work.len(), |i, st| {
-            let (pi, hi) = work[i];
-            st.eval();
-            let h = &hists[hi];
-            let has_commit = h.iter().chain(pre[pi].iter()).any(|o| matches!(o, Op::Commit | Op::CommitPayload));
-            let has_del = h.iter().any(|o| matches!(o, Op::DelA | Op::DelB | Op::DelLastId | Op::DelQueryA | Op::Rollback | Op::RunBatch | Op::PrepAbort));
-            if has_commit && has_del {
-                st.nontrivial(&(flush, workers, pi, h));
-            }
-            if i % 3001 == 0 {
-                st.sample(json!({"prefix":pre[pi],"history":h,"config":cfg,"flush_after":flush}));
-            }
-            let r = catch_unwind(AssertUnwindSafe(|| run_history(&pre[pi], h, &cfg, st)));
-            let (rule, what) = match r {
-                Ok(None) => return,
-                Ok(Some(x)) => x,
-                Err(e) => ("history_panic".to_string(), format!("{} [{}]", panic_message(e), last_panic())),
-            };
-            st.violation(Violation::new(
-                &rule,
-                format!("workers {workers} flush_after {flush:?} prefix {:?} history {:?}: {what}", pre[pi], h),
-                json!({"prefix":pre[pi],"history":h,"config":cfg,"flush_after":flush}),
-            ));
-        });
-        complete &= done == work.len();
-        phase_info.push(json!({"flush_after":flush,"workers":workers,"depth":depth,"histories":work.len(),"completed":done}));
-        total.merge(st);
+        nontrivial = total.counters.get("nontrivial").copied().unwrap_or(0);
+        let mid = work[work.len() / 2];
+        total.sample(json!({"prefix":pre[mid.0],"history":hists[mid.1],"config":cfg,"flush_after":flush}));
     }
-    set_flush_after(None);
     rep.set("exhaustive", complete);
     rep.set("phases", Value::Array(phase_info));
-    rep.set("rule", "every history of exactly D operations over the 15-operation alphabet {add a, add b, delete a, delete b, delete last id, delete_query(a AND NOT first id), run([add a, delete a, add a]), delete_all_documents, commit, prepare+payload+commit, prepare+abort, rollback, merge all, drop+reopen, wait_merging_threads+reopen} whose last operation observes (shorter histories are prefixes; a<->b symmetry removed), from the initial state and three non-initial states, under {1 worker}, {1 worker, segment cut after every document}, {2 workers}, {2 workers, cut after 2}: after every observing operation a fresh searcher (ids, keys, stored and fast fields, postings) equals the reference model; opstamps increase, the commit opstamp exceeds them and equals meta.json's. Non-trivial: history with a commit and a delete / rollback / batch; distinct by (configuration, prefix, history)");
+    rep.set("rule", "every history of exactly D operations over the 15-operation alphabet {add a, add b, delete a, delete b, delete last id, delete_query(a AND NOT first id), run([add a, delete a, add a]), delete_all_documents, commit, prepare+payload+commit, prepare+abort, rollback, merge all, drop+reopen, wait_merging_threads+reopen} whose last operation observes (shorter histories are prefixes; a<->b symmetry removed), from the initial state and three non-initial states, under {1 worker}, {1 worker, segment cut after every document}, {2 workers}, {2 workers, cut after 2}: after every observing operation a fresh searcher (ids, keys, stored and fast fields, postings) equals the reference model; opstamps increase, the commit opstamp exceeds them and equals meta.json's. Non-trivial: history with a commit and a delete / rollback / batch; histories are distinct by construction");
     rep.set("states", total.counters.get("observations").copied().unwrap_or(0).max(1));
     rep.set("transitions", total.counters.get("transitions").copied().unwrap_or(0).max(1));
     rep.set("traces_validated_against_impl", total.evaluations);
     rep.assume("merges only happen as explicit awaited operations here (NoMergePolicy); policy-driven and concurrent behaviour is explored by the scheduler scenarios");
+    rep.assume("histories run in worker sub-processes (one phase = one setting of the process-wide segment-cut hook)");
     rep.merge_stats(&total);
+    rep.set("distinct_nontrivial", nontrivial);
     rep.violations = total.violations;
     rep.machinery_errors.extend(total.errors);
     rep
